@@ -32,9 +32,11 @@ def run(ctx: Ctx) -> None:
     ctx.rule("R-REWRITE-tags", "every rewriter protects template tags")
     ctx.rule("R-NONINT", "the option influences only its guarded consumer call")
     ctx.rule("R-CONSUMER", "the switch guards the rewrite with the right rewriter")
+    ctx.rule("R-REWRITE-order", "the ellipsis pass is the last text rewrite before rendering")
     ctx.run(rewrite.check_quotes_shape)
     ctx.run(rewrite.check_writeback)
     ctx.run(rewrite.check_rewrite_scope)
     ctx.run(rewrite.check_coalesce_and_tags, {"coalesce"})
     ctx.run(rewrite.check_nonint, ("smartquotes",))
     ctx.run(optflow.check_consumers, ("smartquotes",))
+    ctx.run(rewrite.check_rewrite_order)
